@@ -298,7 +298,12 @@ def main(modname, tier, replay=None):
     if rc == 1:
         return 1
     if errors:
+        seen = set()
         for e in errors:
-            log("HARNESS-ERROR: " + e)
+            key = e.strip().splitlines()[0][:200] if e.strip() else e
+            if key in seen:
+                continue
+            seen.add(key)
+            log("HARNESS-ERROR: " + e[:3000])
         return 2
     return 0
